@@ -292,9 +292,11 @@ func (l *SimLN) PayVia(n *Node, a *PayArgs) (string, error) {
 	if a.Lnd != nil {
 		// the real request: lnd routes only within cltv_limit (0 = its own maximum of 2016
 		// blocks); a direct payment needs the invoice's final delta plus lnd's block padding
+		// (lnd: "cltv limit should be greater than final delta + block padding", i.e. a route's
+		// total time lock has to stay strictly below cltv_limit)
 		permitted = 2016
 		if a.Lnd.CltvLimit > 0 {
-			permitted = uint32(a.Lnd.CltvLimit)
+			permitted = uint32(a.Lnd.CltvLimit) - 1
 		}
 		if body.C < 0 || uint32(body.C)+3 > permitted {
 			return finish("", errors.New("payment failure FAILURE_REASON_NO_ROUTE"))
